@@ -367,6 +367,7 @@ var seams = map[string][2]string{
 	"time.Now":      {"zzvenv", "Now"},
 	"time.Tick":     {"zzvenv", "Tick"},
 	"net.ListenUDP": {"zzvenv", "ListenUDP"},
+	"net.Dial":      {"zzvenv", "Dial"},
 	"net.UDPConn":   {"zzvenv", "UDPConn"},
 	"signal.Notify": {"zzvenv", "SignalNotify"},
 	"signal.Stop":   {"zzvenv", "SignalStop"},
@@ -504,7 +505,10 @@ func main() {
 				if im.Name != nil {
 					name = im.Name.Name
 				}
-				if name == "_" || name == "." || uses[name] {
+				// only imports whose last use a seam may have taken away are candidates for removal (the package name of any
+				// other import need not be the last element of its path, e.g. gopkg.in/yaml.v2)
+				seamPkg := p == "time" || p == "net" || p == "os/signal" || p == "runtime" || p == "sync" || p == "sync/atomic" || strings.HasPrefix(p, modPrefix)
+				if name == "_" || name == "." || uses[name] || !seamPkg {
 					keep = append(keep, sp)
 				}
 			}
